@@ -6,6 +6,8 @@ names = [a for a in sys.argv[1:] if not a.startswith('-')]
 for key, cls in VF.CONTRACTS.items():
     if names and not any(n in key[1] for n in names):
         continue
+    if getattr(cls, 'helper', False) or cls.assume_only:
+        continue
     v = VF.Verifier("/repo/middleware")
     t0 = time.time()
     res = R.verify_contract(v, cls)
